@@ -8,18 +8,21 @@ report=tools/mutation_report.md
 {
 echo "# Sensitivity self-test ($tier tier) — hand-written mutants from tools/mutants/"
 echo
-echo "| mutant | target | what it changes | check exit | first signature |"
-echo "|---|---|---|---|---|"
+echo "| mutant | target | what it changes | expected | check exit | verdict | first signature |"
+echo "|---|---|---|---|---|---|---|"
 } > "$report"
 python3 - <<'PY' > /tmp/selftest.list
 import json
-for m in json.load(open('tools/mutants/index.json')): print(m['name'], m['property'], m['note'].replace('|','/'), sep='\t')
+for m in json.load(open('tools/mutants/index.json')): print(m['name'], m['property'], m['note'].replace('|','/'), m.get('expect','violation'), sep='\t')
 PY
 export VERIF_MUT_TARGET="${VERIF_MUT_TARGET:-/verif/monitor/target-dev}"
-while IFS=$'\t' read -r name prop note; do
+bad=0
+while IFS=$'\t' read -r name prop note expect; do
   out="$(tools/with_patch.sh "tools/mutants/$name.patch" ./check "$prop" --tier "$tier" --out /tmp/selftest-ev.json --replays /tmp/selftest-replays 2>&1)"; rc=$?
   sig="$(printf '%s\n' "$out" | grep -o 'signature=[^ ]*' | head -n 1 | sed 's/|/\\|/g')"
-  echo "| $name | $prop | $note | $rc | ${sig:-—} |" >> "$report"
-  echo "$name $prop exit=$rc $sig"
+  if { [ "$expect" = violation ] && [ "$rc" = 1 ]; } || { [ "$expect" = silent ] && [ "$rc" = 0 ]; }; then v=as-expected; else v=UNEXPECTED; bad=$((bad+1)); fi
+  echo "| $name | $prop | $note | $expect | $rc | $v | ${sig:-—} |" >> "$report"
+  echo "$name $prop expect=$expect exit=$rc $v $sig"
 done < /tmp/selftest.list
 rm -rf /tmp/selftest-ev.json /tmp/selftest-replays /tmp/selftest.list
+echo "unexpected outcomes: $bad"; [ $bad -eq 0 ]
